@@ -134,7 +134,7 @@ func handleMGet(params internal.HandlerFuncParams) ([]byte, error) {
 	values := make(map[string]string)
 	for key, value := range params.GetValues(params.Context, keys.ReadKeys) {
 		if value == nil {
-			values[key] = ""
+			// Missing keys are simply absent from the map (an empty string is a value, not a miss).
 			continue
 		}
 		values[key] = fmt.Sprintf("%v", value)
@@ -143,7 +143,7 @@ func handleMGet(params internal.HandlerFuncParams) ([]byte, error) {
 	bytes := []byte(fmt.Sprintf("*%d\r\n", len(params.Command[1:])))
 
 	for _, key := range params.Command[1:] {
-		if values[key] == "" {
+		if _, found := values[key]; !found {
 			bytes = append(bytes, []byte("$-1\r\n")...)
 			continue
 		}
